@@ -358,7 +358,10 @@ def c12(idx: Index, rep: Report, tier: str) -> None:
             n += 1
             a, b = (e.body, e.orelse) if norm(e.test) == "p" else (e.orelse, e.body)
             ta, tb = norm(a), norm(b)
-            ok = tb in (f"not {ta}", f"not ({ta})") or ta in (f"not {tb}", f"not ({tb})") or {ta, tb} in ({"self.manager.And", "self.manager.Or"},)
+            def _neg_of(x, y):  # x is the expression-level negation of y: Not(y) / <manager>.Not(y)
+                return isinstance(x, ast.Call) and call_name(x) == "Not" and len(x.args) == 1 and not x.keywords and norm(x.args[0]) == norm(y)
+
+            ok = tb in (f"not {ta}", f"not ({ta})") or ta in (f"not {tb}", f"not ({tb})") or {ta, tb} in ({"self.manager.And", "self.manager.Or"},) or _neg_of(b, a)
             rep.check(ok, rule, "a value chosen by polarity is the complement under negative polarity", nn.loc(e), construct=norm(e), detail="" if ok else f"under negative polarity `{tb}` is used where the complement of `{ta}` is needed", function=nn.qualname)
     if n == 0:
         rep.ok(rule, "Nnf uses no polarity-conditional value (if/else blocks are checked by the polarity table)", nn.loc(), function=nn.qualname)
